@@ -92,6 +92,19 @@ func init() {
 				}
 				return nil
 			}
+			if sl, ok := a[0].(SliceV); ok {
+				n := int(e.concretize(st, sl.len, "clear length"))
+				if n > 0 {
+					arr := e.loadArr(st, sl)
+					el := append([]Value(nil), arr.e...)
+					z := e.zero(cc.Args[0].Type().Underlying().(*types.Slice).Elem())
+					for i := 0; i < n; i++ {
+						el[sl.off+i] = z
+					}
+					e.store(st, sl.base, &ArrayV{el})
+				}
+				return nil
+			}
 			panic(e.abort("clear on %T", a[0]))
 		},
 		"builtin:ssa:wrapnilchk": func(e *Exec, st *State, fv FuncV, a []Value, cc *ssa.CallCommon) Value {
@@ -150,6 +163,8 @@ func init() {
 			e.store(st, e.nonNil(st, a[0]).extend(Sel{k: 0}), iv)
 			return nil
 		},
+		"sort.Slice":       hSortSlice,
+		"sort.SliceStable": hSortSlice,
 		"maps.clone": func(e *Exec, st *State, fv FuncV, a []Value, cc *ssa.CallCommon) Value {
 			iv := a[0].(IfaceV)
 			m := iv.v.(MapV)
@@ -815,9 +830,21 @@ func hUnlock(e *Exec, st *State, fv FuncV, a []Value, cc *ssa.CallCommon) Value 
 	return nil
 }
 
+// mutexName abstracts a mutex to its owner type and field ("pkg.Type.field"),
+// or to the package-level variable that holds it.
 func (e *Exec) mutexName(st *State, p Ptr, cc *ssa.CallCommon) string {
-	if n, ok := st.objNames[p.obj]; ok {
-		return n
+	if cc != nil && len(cc.Args) > 0 {
+		if fa, ok := cc.Args[0].(*ssa.FieldAddr); ok {
+			if pt, ok := fa.X.Type().Underlying().(*types.Pointer); ok {
+				if stt, ok := pt.Elem().Underlying().(*types.Struct); ok {
+					owner := typeFullName(pt.Elem())
+					if g, isG := fa.X.(*ssa.Global); isG {
+						owner = g.Pkg.Pkg.Path() + "." + g.Name()
+					}
+					return owner + "." + stt.Field(fa.Field).Name()
+				}
+			}
+		}
 	}
 	return fmt.Sprintf("obj%d", p.obj)
 }
@@ -1237,4 +1264,34 @@ func hHTTPError(e *Exec, st *State, fv FuncV, a []Value, cc *ssa.CallCommon) Val
 	e.res.noteOnce("model: http.Error/NotFound call WriteHeader(code) on the ResponseWriter")
 	e.pushCall(st, FuncV{fn: m}, []Value{iv.v, code}, nil)
 	return pushedFrame{}
+}
+
+// hSortSlice: sort.Slice as an insertion sort over the real less closure
+// (the real one swaps through reflection).
+func hSortSlice(e *Exec, st *State, fv FuncV, a []Value, cc *ssa.CallCommon) Value {
+	iv := a[0].(IfaceV)
+	sl, ok := iv.v.(SliceV)
+	if !ok {
+		panic(e.abort("sort.Slice of %T", iv.v))
+	}
+	less := a[1].(FuncV)
+	n := int(e.concretize(st, sl.len, "sort.Slice length"))
+	e.res.noteOnce("model: sort.Slice is an insertion sort over the real less function")
+	for i := 1; i < n; i++ {
+		for j := i; j > 0; j-- {
+			r := e.runNestedStrict(st, less, []Value{e.c.Const(64, uint64(j)), e.c.Const(64, uint64(j-1))})
+			t, ok := r.(*Term)
+			if !ok || !t.IsConst() {
+				panic(e.abort("sort.Slice with a symbolic comparison"))
+			}
+			if t.val == 0 {
+				break
+			}
+			pj, pk := e.sliceElemPtr(sl, e.c.Const(64, uint64(j))), e.sliceElemPtr(sl, e.c.Const(64, uint64(j-1)))
+			vj, vk := e.load(st, pj), e.load(st, pk)
+			e.store(st, pj, vk)
+			e.store(st, pk, vj)
+		}
+	}
+	return nil
 }
